@@ -2,6 +2,7 @@ package main
 
 import (
 	"encoding/hex"
+	"os"
 	"math/rand/v2"
 
 	"github.com/WuKongIM/WuKongIM/internal/verifh/vh"
@@ -305,8 +306,20 @@ func genC13(r *rand.Rand, tier string, i int) input {
 		maxLen = 30
 	}
 	x := r.IntN(100)
+	switch os.Getenv("VERIF_C13_PROF") { // development aid: force one profile
+	case "cm":
+		x = 0
+	case "hs":
+		x = 30
+	case "chan":
+		x = 60
+	case "mix":
+		x = 80
+	case "garbage":
+		x = 95
+	}
 	switch {
-	case x < 30:
+	case x < 28:
 		// channel-migration family: the state-aware generator of the C17 harness, flattened to a log
 		in.Prof = "cm"
 		cm := genCM(r, tier)
@@ -325,7 +338,7 @@ func genC13(r *rand.Rand, tier string, i int) input {
 			in.Ops = in.Ops[:2*maxLen]
 		}
 		in.Parts = append(g.parts(2), own)
-	case x < 60:
+	case x < 56:
 		// hash-slot migration maintenance + user registers, with outgoing migrations configured
 		in.Prof = "hs"
 		switch r.IntN(6) {
@@ -363,7 +376,59 @@ func genC13(r *rand.Rand, tier string, i int) input {
 			}
 		}
 		in.Parts = g.parts(3)
-	case x < 85:
+	case x < 72:
+		// the channel row and its subscribers: delete -> re-add / create / patch sequences on one or
+		// two channels, dense enough that they fall into one batch
+		in.Prof = "chan"
+		chans := []chanKey{genChans[0]}
+		if vh.Chance(r, 0.3) {
+			chans = append(chans, genChans[2])
+		}
+		rowsOnly := vh.Chance(r, 0.3)
+		ver := uint64(0)
+		n := 5 + r.IntN(maxLen)
+		for j := 0; j < n; j++ {
+			c := chans[r.IntN(len(chans))]
+			y := r.IntN(100)
+			if rowsOnly && y < 45 {
+				y = 45 + r.IntN(55)
+			}
+			switch {
+			case y < 32:
+				uids := make([]string, 1+r.IntN(2))
+				for i := range uids {
+					uids[i] = g.uid()
+				}
+				v := uint64(0)
+				if vh.Chance(r, 0.6) {
+					ver++
+					v = ver
+					if vh.Chance(r, 0.15) && ver > 1 {
+						v = ver - 2 // stale mutation version
+					}
+				}
+				in.Ops = append(in.Ops, cmdJ{K: "add_subs", ID: c.ID, Ty: c.Ty, UIDs: uids, N1: v})
+			case y < 45:
+				v := uint64(0)
+				if vh.Chance(r, 0.5) {
+					ver++
+					v = ver
+				}
+				in.Ops = append(in.Ops, cmdJ{K: "remove_subs", ID: c.ID, Ty: c.Ty, UIDs: []string{g.uid()}, N1: v})
+			case y < 63:
+				in.Ops = append(in.Ops, cmdJ{K: "delete_channel", ID: c.ID, Ty: c.Ty})
+			case y < 78:
+				in.Ops = append(in.Ops, cmdJ{K: "create_channel", ID: c.ID, Ty: c.Ty, A: int64(r.IntN(2)), C: int64(r.IntN(2)), E: int64(r.IntN(2))})
+			case y < 86:
+				in.Ops = append(in.Ops, cmdJ{K: "upsert_channel", ID: c.ID, Ty: c.Ty, A: int64(r.IntN(2)), B: int64(r.IntN(2)), D: int64(r.IntN(2))})
+			case y < 96:
+				in.Ops = append(in.Ops, cmdJ{K: "patch_flags", ID: c.ID, Ty: c.Ty, A: int64(r.IntN(2)), B: int64(r.IntN(2)), C: int64(r.IntN(2))})
+			default:
+				in.Ops = append(in.Ops, g.user())
+			}
+		}
+		in.Parts = g.parts(3)
+	case x < 87:
 		in.Prof = "mix"
 		if vh.Chance(r, 0.15) {
 			in.Cfg.Legacy = true
